@@ -8,4 +8,6 @@ EXES = [
     {"name": "scopes", "sources": ["harness/scopes.cpp"]},
     {"name": "futures", "sources": ["harness/futures.cpp"]},
     {"name": "sched", "sources": ["harness/sched.cpp"]},
+    {"name": "expr", "sources": ["harness/expr.cpp"]},
+    {"name": "races", "sources": ["harness/races.cpp"]},
 ]
